@@ -197,6 +197,8 @@ func c10Program(r *core.Rng) []ast.Node {
 		// a literal with a constant prefix and a computed tail (constant prefix lives in the data segment)
 		ast.Assign{Name: "mklit", Value: ast.FuncLit{Params: []string{"v"}, Body: ast.ArrayLit{Elems: []ast.Node{il(7), il(8), nm("v"), il(9)}}}},
 		ast.Assign{Name: "mkconst", Value: ast.FuncLit{Body: arr(10, 20, 30)}},
+		ast.Assign{Name: "mkcomp", Value: ast.FuncLit{Params: []string{"v"}, Body: ast.ArrayLit{Elems: []ast.Node{il(1), il(2), ast.Binary{Op: "*", L: nm("v"), R: il(10)}}}}},
+		ast.Assign{Name: "mkcall", Value: ast.FuncLit{Params: []string{"v"}, Body: ast.ArrayLit{Elems: []ast.Node{il(5), icall("zsame", nm("v")), il(6)}}}},
 		ast.Assign{Name: "mkstr", Value: ast.FuncLit{Body: ast.StrLit{V: "lit"}}},
 		// recursion that builds on a literal each level
 		ast.Assign{Name: "rec", Value: ast.FuncLit{Params: []string{"n"}, Body: ast.If{Cond: ast.Binary{Op: "<=", L: nm("n"), R: il(0)}, Then: arr(0), Else: ast.Binary{Op: "+", L: ast.Slice{X: icall("rec", ast.Binary{Op: "-", L: nm("n"), R: il(1)}), I: il(0), J: il(1)}, R: ast.ArrayLit{Elems: []ast.Node{nm("n")}}}}}},
@@ -209,6 +211,10 @@ func c10Program(r *core.Rng) []ast.Node {
 			Else: ast.ArrayLit{Elems: []ast.Node{nm("n"), icall("lst", ast.Binary{Op: "-", L: nm("n"), R: il(1)})}}}}},
 		ast.Assign{Name: "lstk", Value: ast.FuncLit{Params: []string{"n"}, Body: ast.If{Cond: ast.Binary{Op: "<=", L: nm("n"), R: il(0)}, Then: arr(7, 0, 0, 9),
 			Else: ast.ArrayLit{Elems: []ast.Node{il(7), nm("n"), icall("lstk", ast.Binary{Op: "-", L: nm("n"), R: il(1)}), ast.Binary{Op: "*", L: nm("n"), R: il(2)}, il(9)}}}}},
+		// a nested literal (its rows live in the data segment), an identity function and a wrapping function
+		ast.Assign{Name: "xm", Value: ast.ArrayLit{Elems: []ast.Node{arr(1, 2, 3), arr(4, 5, 6, 7)}}},
+		ast.Assign{Name: "zsame", Value: ast.FuncLit{Params: []string{"p"}, Body: nm("p")}},
+		ast.Assign{Name: "zwrap", Value: ast.FuncLit{Params: []string{"p"}, Body: ast.ArrayLit{Elems: []ast.Node{nm("p"), il(0)}}}},
 		// a callee that uses the temp register itself
 		ast.Assign{Name: "ztmp", Value: ast.FuncLit{Params: []string{"v"}, Body: ast.Binary{Op: "+", L: ast.Binary{Op: "+", L: nm("v"), R: nm("v")}, R: nm("v")}}},
 		// two generators of one function suspended inside the same literal
@@ -224,7 +230,29 @@ func c10Program(r *core.Rng) []ast.Node {
 	for k := r.Range(6, 16); k > 0; k-- {
 		a := nm(vars[r.Intn(len(vars))])
 		b := nm(vars[r.Intn(len(vars))])
-		switch r.Intn(16) {
+		switch r.Intn(19) {
+		case 16, 17, 18: // slices and concatenations of values that are only ever on the stack: elements of nested arrays, results of calls returning an existing array
+			v := newVar("ya")
+			lo := il(int64(r.Intn(2)))
+			var src ast.Node
+			switch r.Intn(5) {
+			case 0:
+				src = ast.Index{X: nm("xm"), I: il(int64(r.Intn(2)))}
+			case 1:
+				src = icall("zsame", a)
+			case 2:
+				src = ast.Index{X: ast.ArrayLit{Elems: []ast.Node{a, b}}, I: il(int64(r.Intn(2)))}
+			case 3:
+				src = ast.Index{X: icall("zwrap", a), I: il(0)}
+			default:
+				src = icall("zsame", ast.Index{X: nm("xm"), I: il(1)})
+			}
+			if r.Chance(1, 4) {
+				ss = append(ss, ast.Assign{Name: v, Value: ast.Binary{Op: "+", L: src, R: arr(r.Intn(9))}})
+			} else {
+				ss = append(ss, ast.Assign{Name: v, Value: ast.Slice{X: src, I: lo, J: ast.Binary{Op: "-", L: ast.Unary{Op: "#", X: src}, R: il(int64(r.Intn(2)))}}})
+			}
+			vars = append(vars, v)
 		case 14, 15: // + chains ending in a literal whose call comes after computed elements (the chain's left part waits in the temp register)
 			v := newVar("ya")
 			call3 := icall("ztmp", ast.Binary{Op: "+", L: nm("xk"), R: il(int64(r.Intn(5)))})
@@ -266,7 +294,7 @@ func c10Program(r *core.Rng) []ast.Node {
 			vars = append(vars, v)
 		case 4:
 			v := newVar("ya")
-			ss = append(ss, ast.Assign{Name: v, Value: icall("mklit", il(int64(r.Intn(100))))})
+			ss = append(ss, ast.Assign{Name: v, Value: icall([]string{"mklit", "mkcomp", "mkcall", "mkcomp"}[r.Intn(4)], il(int64(r.Intn(100))))})
 			vars = append(vars, v)
 		case 5: // loop extending an accumulator by literals and slices, 3+ iterations
 			v := newVar("ya")
